@@ -134,6 +134,9 @@ func put32(data []byte, off int, v uint32) {
 func genCase(t *rapid.T) Case {
 	mode := rapid.SampledFrom([]string{"ewkb", "wkb-nan", "wkb-err"}).Draw(t, "mode")
 	class := rapid.SampledFrom([]string{"forgery", "forgery", "mutant", "mutant", "mutant", "valid", "splice", "atlimit"}).Draw(t, "class")
+	if rapid.IntRange(0, 29).Draw(t, "many") == 17 {
+		class = "many"
+	}
 	_, data, fields, typeWords, typeWordBE := genBaseM(t, mode)
 	c := Case{Class: class, Mode: mode}
 	limitSet := []int{0, 1, 3, 64, 4096}
@@ -150,6 +153,48 @@ func genCase(t *rapid.T) Case {
 		}
 	}
 	switch class {
+	case "many":
+		// an honest encoding with hundreds to a couple of thousand small components, all
+		// present and all within the limits: what a decode allocates stays linear in the
+		// input, however the components are appended
+		n := rapid.SampledFrom([]int{300, 500, 1000, 1500}).Draw(t, "manyn")
+		if rapid.Bool().Draw(t, "manyany") {
+			n = rapid.IntRange(200, 1500).Draw(t, "manynv")
+		}
+		kind := rapid.SampledFrom([]string{model.Polygon, model.Polygon, model.MultiLineString, model.MultiPolygon, model.MultiPoint, model.GeometryCollection}).Draw(t, "manykind")
+		l := rapid.SampledFrom([]geom.Layout{geom.XY, geom.XY, geom.XYZ, geom.XYZM}).Draw(t, "manylayout")
+		pt := func(i, j int) []model.F {
+			co := []model.F{model.Of(float64(i)), model.Of(float64(j)), model.Of(float64(i + j)), model.Of(1)}
+			return co[:l.Stride()]
+		}
+		ring := func(i int) [][]model.F {
+			if i%7 == 3 {
+				return [][]model.F{}
+			}
+			return [][]model.F{pt(i, 0), pt(i+1, 0), pt(i, 1), pt(i, 0)}
+		}
+		g := &model.G{Kind: kind, Layout: int(l)}
+		for i := 0; i < n; i++ {
+			switch kind {
+			case model.Polygon:
+				g.C2 = append(g.C2, ring(i))
+			case model.MultiLineString:
+				g.C2 = append(g.C2, ring(i)[:min(2, len(ring(i)))])
+			case model.MultiPolygon:
+				g.C3 = append(g.C3, [][][]model.F{ring(i)})
+			case model.MultiPoint:
+				g.C1 = append(g.C1, pt(i, -i))
+			default:
+				g.Members = append(g.Members, model.G{Kind: model.Point, Layout: int(l), C0: pt(i, i)})
+			}
+		}
+		var err error
+		data, fields, typeWords, typeWordBE, err = refwkb.EncodeMixed(g, rapid.Bool().Draw(t, "mxdr"), refMode(mode), nil)
+		if err != nil {
+			panic(err)
+		}
+		lim := rapid.SampledFrom([]int{-1, n, n + 1, 4096}).Draw(t, "manylimit")
+		c.Limits = [3]int{lim, lim, lim}
 	case "atlimit":
 		// a geometry with long first components whose ring / member / point count is raised
 		// to exactly what its limit allows, the input ending where it ended before: nothing
